@@ -70,6 +70,12 @@ func init() {
 		fs = append(fs, cfs...)
 		inc = append(inc, cinc...)
 		ev["rt_commitsync"] = cev
+		// SPI calls parked on their context while syncs of every kind arrive; the committee contract reports cancellation
+		// with the context's error or with one of its own
+		sfs, sev, sinc := rtPart(run, "sync", 64, 3000, map[string]int{"C14 releases judged": 100})
+		fs = append(fs, sfs...)
+		inc = append(inc, sinc...)
+		ev["rt_sync"] = sev
 		cov := map[string]interface{}{
 			"evaluations":         ev["registry_sequences_exhaustive"].(int) + ev["concurrent_histories"].(int),
 			"distinct_nontrivial": ev["registry_sequences_with_issue_and_cancel"].(int),
